@@ -9,6 +9,12 @@ use triomphe::Arc as TrioArc;
 type BH = BuildHasherDefault<IdH>;
 type Ca = Cache<u8, Val, BH>;
 type Op = WriteOp<u8, Val>;
+/// property checks are taken or skipped by a fresh nondeterministic choice (Kani's assert! is assert-then-assume:
+/// behind a failing assertion nothing else would be reported on that path; see unsync_cache.rs)
+macro_rules! chk {
+    ($cond:expr, $msg:expr) => { if kani::any::<bool>() { assert!($cond, $msg) } };
+}
+
 
 struct DrainingInner { rx: crossbeam_channel::Receiver<Op>, calls: Cell<u32>, now: Instant }
 impl InnerSync for DrainingInner {
@@ -42,10 +48,10 @@ fn schedule_write_op_on_a_full_queue_runs_maintenance_and_returns() {
     // the other regime (queue at its flush point) is decided by full_queue_always_triggers_maintenance
     let hk = Arc::new(vh::mk_housekeeper(false, Instant::new(instant_at(100, 0))));
     let r = Ca::schedule_write_op(&inner, &tx, an_op(2), now, Some(&hk));
-    assert!(r.is_ok(), "C09: insert on a full queue must complete");
-    assert!(inner.calls.get() == 1, "C09: the insert itself must perform the pending maintenance exactly once");
-    assert!(tx.len() == 1, "C09: the new write op is queued after maintenance drained the queue");
-    assert!(!vh::is_running(&hk), "C09: maintenance flag released");
+    chk!(r.is_ok(), "C09: insert on a full queue must complete");
+    chk!(inner.calls.get() == 1, "C09: the insert itself must perform the pending maintenance exactly once");
+    chk!(tx.len() == 1, "C09: the new write op is queued after maintenance drained the queue");
+    chk!(!vh::is_running(&hk), "C09: maintenance flag released");
     kani::cover!(true, "end reached");
     std::mem::forget(inner);
 }
@@ -62,9 +68,9 @@ fn schedule_write_op_with_room_enqueues_once() {
     kani::assume(sa < 1000);
     let hk = Arc::new(vh::mk_housekeeper(busy, Instant::new(instant_at(sa, 0))));
     let r = Ca::schedule_write_op(&inner, &tx, an_op(2), now, Some(&hk));
-    assert!(r.is_ok() && tx.len() == 1, "C09: write op enqueued exactly once");
-    assert!(inner.calls.get() <= 1 && (!busy || inner.calls.get() == 0), "C09: at most one maintenance run, none while another thread holds the flag");
-    assert!(vh::is_running(&hk) == busy, "C09: flag state preserved");
+    chk!(r.is_ok() && tx.len() == 1, "C09: write op enqueued exactly once");
+    chk!(inner.calls.get() <= 1 && (!busy || inner.calls.get() == 0), "C09: at most one maintenance run, none while another thread holds the flag");
+    chk!(vh::is_running(&hk) == busy, "C09: flag state preserved");
     kani::cover!(inner.calls.get() == 1, "maintenance ran");
     kani::cover!(inner.calls.get() == 0, "maintenance skipped");
     std::mem::forget(inner);
@@ -92,10 +98,10 @@ fn schedule_write_op_retries_maintenance_until_the_queue_has_room() {
     unsafe { OTHER_HK = &**(&hk) as *const Housekeeper; }
     kani::cover!(true, "inputs chosen");
     let r = Ca::schedule_write_op(&inner, &tx, an_op(2), now, Some(&hk));
-    assert!(r.is_ok(), "C09: insert on a full queue must complete once the other thread's maintenance run has ended");
-    assert!(unsafe { SLEEPS } == 1, "C09: one retry round after the flag became free");
-    assert!(inner.calls.get() == 1, "C09: the blocked writer must run the pending maintenance itself when it retries");
-    assert!(tx.len() == 1 && !vh::is_running(&hk), "C09: op queued, flag released");
+    chk!(r.is_ok(), "C09: insert on a full queue must complete once the other thread's maintenance run has ended");
+    chk!(unsafe { SLEEPS } == 1, "C09: one retry round after the flag became free");
+    chk!(inner.calls.get() == 1, "C09: the blocked writer must run the pending maintenance itself when it retries");
+    chk!(tx.len() == 1 && !vh::is_running(&hk), "C09: op queued, flag released");
     kani::cover!(true, "end reached");
     std::mem::forget(inner);
 }
@@ -111,9 +117,9 @@ fn invalidate_hidden(tc: usize, ttl: bool, tti: bool, va: bool) {
     let cache: Ca = Cache { base: vs::base_of(st) };
     assert!(!cache.base.contains_key(&0u8), "VERIF-BOUND: harness time class must hide key 0");
     cache.invalidate(&0u8);
-    assert!(cache.base.inner.verif_in_map(0) == false, "C07: invalidate(k) returned but k is still in the map (hidden only by its timestamps: an applied read or nothing at all can bring it back)");
-    assert!(cache.base.inner.verif_in_map(1), "C07: invalidate(k) must not affect other keys");
-    assert!(cache.base.write_op_ch.len() == 1, "C07,C10,C11: the removal must be queued for maintenance");
+    chk!(cache.base.inner.verif_in_map(0) == false, "C07: invalidate(k) returned but k is still in the map (hidden only by its timestamps: an applied read or nothing at all can bring it back)");
+    chk!(cache.base.inner.verif_in_map(1), "C07: invalidate(k) must not affect other keys");
+    chk!(cache.base.write_op_ch.len() == 1, "C07,C10,C11: the removal must be queued for maintenance");
     kani::cover!(true, "end reached");
     std::mem::forget(cache);
 }
@@ -143,17 +149,17 @@ fn sync_iter_moving_clock(tc_create: usize, tc_next: usize, ttl: bool, tti: bool
     let mut seen = [0u32; 2];
     let mut i = 0;
     while i < 4 {
-        if let Some(r) = it.next() { let k = *r.key() as usize; assert!(k < 2, "C16,C01: iteration yields a key that was never inserted"); seen[k] += 1; }
+        if let Some(r) = it.next() { let k = *r.key() as usize; chk!(k < 2, "C16,C01: iteration yields a key that was never inserted"); seen[k] += 1; }
         i += 1;
     }
     drop(it);
     let mut k = 0;
     while k < 2 {
-        assert!(seen[k] <= 1, "C16: iteration yields an entry twice");
-        assert!((seen[k] == 1) == !hid[k], "C16,C05,C06,C07: iteration must yield exactly the entries that are live at the clock reading of the next() call (never an expired or invalidated one, every live one)");
+        chk!(seen[k] <= 1, "C16: iteration yields an entry twice");
+        chk!((seen[k] == 1) == !hid[k], "C16,C05,C06,C07: iteration must yield exactly the entries that are live at the clock reading of the next() call (never an expired or invalidated one, every live one)");
         k += 1;
     }
-    assert!(cache.base.inner.verif_read_len() == 0 && cache.base.write_op_ch.len() == 0, "C15: iteration records nothing");
+    chk!(cache.base.inner.verif_read_len() == 0 && cache.base.write_op_ch.len() == 0, "C15: iteration records nothing");
     kani::cover!(true, "end reached");
     std::mem::forget(cache);
 }
@@ -180,14 +186,14 @@ fn invalidate_of_a_pending_insert_queues_its_removal() {
     let cache: Ca = Cache { base: vs::base_of(st) };
     assert!(cache.base.write_op_ch.len() == 1);
     cache.invalidate(&1u8);
-    assert!(!cache.base.contains_key(&1u8), "C07: invalidated key still observable");
-    assert!(cache.base.contains_key(&0u8), "C07: invalidate(k) must not affect other keys");
+    chk!(!cache.base.contains_key(&1u8), "C07: invalidated key still observable");
+    chk!(cache.base.contains_key(&0u8), "C07: invalidate(k) must not affect other keys");
     // the Remove must follow the queued Upsert: otherwise maintenance admits an entry that left the map
     // and its deque nodes pin the key for ever (C11) and entry_count drifts (C10)
-    assert!(cache.base.write_op_ch.len() == 2, "C11,C10,C07: invalidate of a pending entry must queue a Remove behind its Upsert");
+    chk!(cache.base.write_op_ch.len() == 2, "C11,C10,C07: invalidate of a pending entry must queue a Remove behind its Upsert");
     let first = cache.base.inner.verif_recv_write();
     let second = cache.base.inner.verif_recv_write();
-    assert!(matches!(first, Some(WriteOp::Upsert { .. })) && matches!(second, Some(WriteOp::Remove(_))), "C11,C07: queue order Upsert then Remove");
+    chk!(matches!(first, Some(WriteOp::Upsert { .. })) && matches!(second, Some(WriteOp::Remove(_))), "C11,C07: queue order Upsert then Remove");
     kani::cover!(true, "end reached");
     std::mem::forget(first); std::mem::forget(second); std::mem::forget(pending);
     std::mem::forget(cache);
@@ -218,18 +224,18 @@ fn contains_key_and_iter_are_not_maintenance_points() {
     let c0 = cache.contains_key(&0u8);
     let c1 = cache.contains_key(&1u8);
     let c2 = cache.contains_key(&2u8);
-    assert!(c0 && c1 && !c2, "C01,C03: contains_key sees residents and pending inserts, not absent keys");
+    chk!(c0 && c1 && !c2, "C01,C03: contains_key sees residents and pending inserts, not absent keys");
     let mut it = cache.iter();
     let mut seen = 0u32;
     let mut i = 0;
     while i < 4 { if it.next().is_some() { seen += 1; } i += 1; }
     drop(it);
-    assert!(seen == 2, "C16: iteration yields every live entry exactly once");
-    assert!(unsafe { TRY_SYNC_CALLS } == 0, "C15: contains_key / iteration must not run or trigger maintenance (they would change which reads TinyLFU has seen when a pending insert is judged)");
-    assert!(cache.base.write_op_ch.len() == 1 && cache.base.inner.verif_read_len() == 0, "C15,C14: contains_key / iteration must not record or apply anything");
+    chk!(seen == 2, "C16: iteration yields every live entry exactly once");
+    chk!(unsafe { TRY_SYNC_CALLS } == 0, "C15: contains_key / iteration must not run or trigger maintenance (they would change which reads TinyLFU has seen when a pending insert is judged)");
+    chk!(cache.base.write_op_ch.len() == 1 && cache.base.inner.verif_read_len() == 0, "C15,C14: contains_key / iteration must not record or apply anything");
     // get, by contrast, is a maintenance point: exactly one attempt
     let _ = cache.get(&0u8);
-    assert!(unsafe { TRY_SYNC_CALLS } == 1, "C09: a due housekeeper must be tried by get");
+    chk!(unsafe { TRY_SYNC_CALLS } == 1, "C09: a due housekeeper must be tried by get");
     kani::cover!(true, "end reached");
     std::mem::forget(pending);
     std::mem::forget(cache);
@@ -250,10 +256,10 @@ fn sync_initial_capacity_is_inert() {
     let a: Ca = CacheBuilder::<u8, Val, Cache<u8, Val>>::default().max_capacity(n).build_with_hasher(BH::default());
     let b: Ca = CacheBuilder::<u8, Val, Cache<u8, Val>>::default().max_capacity(n).initial_capacity(init).build_with_hasher(BH::default());
     let u: Ca = CacheBuilder::<u8, Val, Cache<u8, Val>>::default().initial_capacity(init).build_with_hasher(BH::default());
-    assert!(a.base.inner.verif_sketch_state() == (false, true), "C13,C17: a fresh cache starts with the popularity sketch disabled and unallocated");
-    assert!(b.base.inner.verif_sketch_state() == a.base.inner.verif_sketch_state(), "C17: initial_capacity changes the popularity-sketch state of a fresh cache (observable through later admissions)");
-    assert!(u.base.inner.verif_sketch_state() == (false, true), "C17: initial_capacity changes the popularity-sketch state of an unbounded cache");
-    assert!(b.policy().max_capacity() == Some(n) && b.entry_count() == 0 && b.weighted_size() == 0, "C17: initial_capacity leaks into policy or counters");
+    chk!(a.base.inner.verif_sketch_state() == (false, true), "C13,C17: a fresh cache starts with the popularity sketch disabled and unallocated");
+    chk!(b.base.inner.verif_sketch_state() == a.base.inner.verif_sketch_state(), "C17: initial_capacity changes the popularity-sketch state of a fresh cache (observable through later admissions)");
+    chk!(u.base.inner.verif_sketch_state() == (false, true), "C17: initial_capacity changes the popularity-sketch state of an unbounded cache");
+    chk!(b.policy().max_capacity() == Some(n) && b.entry_count() == 0 && b.weighted_size() == 0, "C17: initial_capacity leaks into policy or counters");
     kani::cover!(n == 0, "capacity zero");
     kani::cover!(true, "end reached");
     std::mem::forget(a); std::mem::forget(b); std::mem::forget(u);
